@@ -92,3 +92,5 @@ def nontrivial(case, obs):
 
 features = B.features_counted
 describe = B.describe_short
+
+classify_corr = B.classify_corr
